@@ -208,3 +208,39 @@ def annotate(events):
         fed += b"".join(bytes(e.get("rest", [])) for e in events if e["e"] == "Finish")
         head["T"] = table_for(head, fed)
     return events
+
+
+def cancelling(tag):
+    """modifications of an integrity value that a sloppy comparison does not see although a single-bit flip it does: differences that cancel in a byte sum
+    (0x80 in two bytes, 0x40 in four), in an XOR fold (the same mask in two bytes), in any order-insensitive compare (two bytes swapped), and beyond the
+    first 4 / 8 / 16 bytes.  Returns [(name, modified)]; entries equal to the original are left out."""
+    t = bytes(tag); n = len(t); out = []
+
+    def mod(name, edits):
+        x = bytearray(t)
+        for i, m in edits:
+            if i < n:
+                x[i] ^= m
+        if bytes(x) != t:
+            out.append((name, bytes(x)))
+    if n >= 2:
+        for i, j in ((0, 1), (0, n - 1), (n // 2 - 1, n // 2), (n - 2, n - 1)):
+            if i != j:
+                mod("x80@%d,%d" % (i, j), [(i, 0x80), (j, 0x80)])
+                mod("x01@%d,%d" % (i, j), [(i, 0x01), (j, 0x01)])
+                mod("x5a@%d,%d" % (i, j), [(i, 0x5a), (j, 0x5a)])
+    if n >= 4:
+        mod("x40@0..3", [(k, 0x40) for k in range(4)])
+        mod("x40@last4", [(n - 1 - k, 0x40) for k in range(4)])
+    for i, j in ((0, 1), (0, n - 1), (n // 2, n - 1)):
+        if i < j < n and t[i] != t[j]:
+            x = bytearray(t); x[i], x[j] = x[j], x[i]; out.append(("swap@%d,%d" % (i, j), bytes(x)))
+    for k in (4, 8, 12, 16, n - 1):
+        if 0 < k < n:
+            mod("tail-from-%d" % k, [(q, 0xff) for q in range(k, n)])
+            mod("byte%d" % k, [(k, 0x01)])
+    seen, uniq = set(), []
+    for nm, v in out:
+        if v not in seen:
+            seen.add(v); uniq.append((nm, v))
+    return uniq
